@@ -66,20 +66,31 @@ Record state := mkState {
   st_created : list (inst * sid * nat);    (* user side: (instance, id, creation number), newest first *)
   st_ene : list (inst * tid * sid);        (* ghost/spec: entered and not yet exited, newest first *)
   st_cpar : list (nat * option nat);       (* ghost/spec: creation-time parent of each creation number *)
-  st_panicked : bool
+  st_panicked : bool;
+  (* slab guards (SpanRef / Data obtained by LookupSpan::span and kept across operations) *)
+  st_held : list (nat * (inst * sid * nat));      (* guard key -> (instance, id, creation number) *)
+  st_limbo : list (inst * sid * nat * option sid);(* spans reported closed while a guard was held: slot only MARKED, storage
+                                                     (parent reference, extensions) released with the last guard *)
+  st_notes : list (inst * N * nat);               (* slot storage: the extension written through a held guard, per slot index *)
+  (* the per-subscriber-filtered layer (outermost Layered frame) *)
+  st_filtering : list tid;                        (* FILTERING thread-local: the filter disabled the callsite last asked about *)
+  st_vis : list (nat * bool)                      (* FilterMap bit per span (by creation number): enabled for the filtered layer *)
 }.
 
 Definition init (layers : inst -> nat) (global : option inst) : state :=
-  mkState (fun _ _ => empty_slot) layers global 0 [] [] [] [] 0 [] [] [] false.
+  mkState (fun _ _ => empty_slot) layers global 0 [] [] [] [] 0 [] [] [] false [] [] [] [] [].
 
 (* setters *)
-Definition set_slots f st := mkState f (st_layers st) (st_global st) (st_scoped st) (st_def st) (st_entries st) (st_close st) (st_handles st) (st_count st) (st_created st) (st_ene st) (st_cpar st) (st_panicked st).
-Definition set_def n d st := mkState (st_slots st) (st_layers st) (st_global st) n d (st_entries st) (st_close st) (st_handles st) (st_count st) (st_created st) (st_ene st) (st_cpar st) (st_panicked st).
-Definition set_entries e g st := mkState (st_slots st) (st_layers st) (st_global st) (st_scoped st) (st_def st) e (st_close st) (st_handles st) (st_count st) (st_created st) g (st_cpar st) (st_panicked st).
-Definition set_close c st := mkState (st_slots st) (st_layers st) (st_global st) (st_scoped st) (st_def st) (st_entries st) c (st_handles st) (st_count st) (st_created st) (st_ene st) (st_cpar st) (st_panicked st).
-Definition set_handles h st := mkState (st_slots st) (st_layers st) (st_global st) (st_scoped st) (st_def st) (st_entries st) (st_close st) h (st_count st) (st_created st) (st_ene st) (st_cpar st) (st_panicked st).
-Definition set_created n c p st := mkState (st_slots st) (st_layers st) (st_global st) (st_scoped st) (st_def st) (st_entries st) (st_close st) (st_handles st) n c (st_ene st) p (st_panicked st).
-Definition set_panicked st := mkState (st_slots st) (st_layers st) (st_global st) (st_scoped st) (st_def st) (st_entries st) (st_close st) (st_handles st) (st_count st) (st_created st) (st_ene st) (st_cpar st) true.
+Definition set_slots f st := mkState f (st_layers st) (st_global st) (st_scoped st) (st_def st) (st_entries st) (st_close st) (st_handles st) (st_count st) (st_created st) (st_ene st) (st_cpar st) (st_panicked st) (st_held st) (st_limbo st) (st_notes st) (st_filtering st) (st_vis st).
+Definition set_def n d st := mkState (st_slots st) (st_layers st) (st_global st) n d (st_entries st) (st_close st) (st_handles st) (st_count st) (st_created st) (st_ene st) (st_cpar st) (st_panicked st) (st_held st) (st_limbo st) (st_notes st) (st_filtering st) (st_vis st).
+Definition set_entries e g st := mkState (st_slots st) (st_layers st) (st_global st) (st_scoped st) (st_def st) e (st_close st) (st_handles st) (st_count st) (st_created st) g (st_cpar st) (st_panicked st) (st_held st) (st_limbo st) (st_notes st) (st_filtering st) (st_vis st).
+Definition set_close c st := mkState (st_slots st) (st_layers st) (st_global st) (st_scoped st) (st_def st) (st_entries st) c (st_handles st) (st_count st) (st_created st) (st_ene st) (st_cpar st) (st_panicked st) (st_held st) (st_limbo st) (st_notes st) (st_filtering st) (st_vis st).
+Definition set_handles h st := mkState (st_slots st) (st_layers st) (st_global st) (st_scoped st) (st_def st) (st_entries st) (st_close st) h (st_count st) (st_created st) (st_ene st) (st_cpar st) (st_panicked st) (st_held st) (st_limbo st) (st_notes st) (st_filtering st) (st_vis st).
+Definition set_created n c p st := mkState (st_slots st) (st_layers st) (st_global st) (st_scoped st) (st_def st) (st_entries st) (st_close st) (st_handles st) n c (st_ene st) p (st_panicked st) (st_held st) (st_limbo st) (st_notes st) (st_filtering st) (st_vis st).
+Definition set_panicked st := mkState (st_slots st) (st_layers st) (st_global st) (st_scoped st) (st_def st) (st_entries st) (st_close st) (st_handles st) (st_count st) (st_created st) (st_ene st) (st_cpar st) true (st_held st) (st_limbo st) (st_notes st) (st_filtering st) (st_vis st).
+
+Definition set_guards h l n st := mkState (st_slots st) (st_layers st) (st_global st) (st_scoped st) (st_def st) (st_entries st) (st_close st) (st_handles st) (st_count st) (st_created st) (st_ene st) (st_cpar st) (st_panicked st) h l n (st_filtering st) (st_vis st).
+Definition set_filter f v st := mkState (st_slots st) (st_layers st) (st_global st) (st_scoped st) (st_def st) (st_entries st) (st_close st) (st_handles st) (st_count st) (st_created st) (st_ene st) (st_cpar st) (st_panicked st) (st_held st) (st_limbo st) (st_notes st) f v.
 
 Definition upd_slot (st : state) (i : inst) (x : N) (v : slot) : state :=
   set_slots (fun i' x' => if (i' =? i) && N.eqb x' x then v else st_slots st i' x') st.
@@ -104,8 +115,13 @@ Inductive obs :=
 | OForeignParent                              (* explicit parent from another collector than the current default *)
 | OBadAlloc                                   (* allocator choice not legal for the abstract pool *)
 | OFuel
-| ORoute (own : nat) (to : option nat).       (* model only: a release that sharded.rs routes through
+| ORoute (own : nat) (to : option nat)        (* model only: a release that sharded.rs routes through
                                                  dispatch::get_default went to [to]; the span lives in [own] *)
+| OHold (q : option nat)                      (* registry.span(&id) for a guard that is kept: the span found (its creation number) or not *)
+| OPeek (v : option nat)                      (* the extension read through a held guard *)
+| OStaleNote (i q v : nat)                    (* on_new_span of span q found the extension [v] an earlier occupant's guard wrote into the slot *)
+| OFEvent (i : nat) (cur espan : option nat) (escope efromroot : list nat).
+                                              (* what the per-subscriber-filtered layer sees inside on_event *)
 
 (* ------------------------------------------------------------------ user-side tables *)
 Fixpoint hget (h : hid) (hs : list (hid * hval)) : option hval :=
@@ -208,8 +224,36 @@ Definition vacate (st : state) (i : inst) (s : sid) (sl : slot) : state :=
   | None => st'
   end.
 
+(* ------------------------------------------------------------------ slab guards *)
+(** handle ids: the user's are even; [phantom q] (odd) names the parent reference that the storage of span q still holds
+    after q was reported closed while a guard kept its slot from being cleared *)
+Definition phantom (q : nat) : hid := S (2 * q).
+Definition gmatch (i : inst) (s : sid) (g : nat * (inst * sid * nat)) : bool :=
+  (fst (fst (snd g)) =? i) && sid_eqb (snd (fst (snd g))) s.
+Definition guarded (st : state) (i : inst) (s : sid) : bool := existsb (gmatch i s) (st_held st).
+Fixpoint gget (k : nat) (g : list (nat * (inst * sid * nat))) : option (inst * sid * nat) :=
+  match g with [] => None | (k', v) :: r => if k' =? k then Some v else gget k r end.
+Definition lmatch (i : inst) (x : N) (l : inst * sid * nat * option sid) : bool :=
+  (fst (fst (fst l)) =? i) && N.eqb (fst (snd (fst (fst l)))) x.
+Definition in_limbo (st : state) (i : inst) (x : N) : bool := existsb (lmatch i x) (st_limbo st).
+Definition nmatch (i : inst) (x : N) (n : inst * N * nat) : bool := (fst (fst n) =? i) && N.eqb (snd (fst n)) x.
+Definition note_at (st : state) (i : inst) (x : N) : option nat :=
+  match find (nmatch i x) (st_notes st) with Some n => Some (snd n) | None => None end.
+(** the slot's storage is cleared (Clear for DataInner): its note goes.  (Guards on that span cannot exist at this point —
+    a guarded span goes to limbo instead —; the model forgets them nevertheless, which keeps the bookkeeping invariants of
+    Registry/Guards.v independent of that fact.) *)
+Definition drop_note (st : state) (i : inst) (s : sid) : state :=
+  set_guards (filter (fun g => negb (gmatch i s g)) (st_held st)) (st_limbo st)
+             (filter (fun n => negb (nmatch i (fst s) n)) (st_notes st)) st.
+Definition add_limbo (st : state) (l : inst * sid * nat * option sid) : state :=
+  set_guards (st_held st) (l :: st_limbo st) (st_notes st) st.
+
 (** Clear for DataInner, whole: vacate, then release the parent THROUGH dispatch::get_default ([casc] is
-    Layered::try_close on whatever collector that is). *)
+    Layered::try_close on whatever collector that is).
+    With a slab guard on the slot, Pool::clear only MARKS it (from now on lookups fail — [vacate] —) and the storage stays:
+    the span goes to [st_limbo]; the reference it holds on its parent becomes the phantom handle [phantom q], released when
+    the last guard is dropped ([do_release]); the slot's note stays.  (The freshness test of the phantom id never fails:
+    Registry/Guards.v.) *)
 Definition clear_slot (casc : state -> inst -> sid -> state * list obs)
            (st : state) (t : tid) (nested : bool) (i : inst) (s : sid) : state * list obs :=
   match lookup st i s with
@@ -217,8 +261,12 @@ Definition clear_slot (casc : state -> inst -> sid -> state * list obs)
   | Some sl =>
     let st' := vacate st i s sl in
     match s_parent sl with
-    | None => (st', [])
+    | None => if guarded st i s then (add_limbo st' (i, s, s_seq sl, None), []) else (drop_note st' i s, [])
     | Some p =>
+      if guarded st i s && match hget (phantom (s_seq sl)) (st_handles st) with None => true | Some _ => false end
+      then (add_limbo (set_handles ((phantom (s_seq sl), HSpan i p) :: st_handles st') st') (i, s, s_seq sl, Some p), [])
+      else
+      let st' := drop_note st' i s in
       let d := eff st' t nested in
       let '(st'', o) := match d with
                         | Some j => casc st' j p
@@ -317,12 +365,18 @@ Inductive op :=
 | OEvent_ (t : tid) (k : pkind)
 | OSetDef (t : tid) (d : option inst)
 | OUnsetDef (t : tid)
-| OReadTrace (t : tid) (h : hid).
+| OReadTrace (t : tid) (h : hid)
+| OHold_ (t : tid) (k : nat) (h : hid)       (* keep the SpanRef of registry.span(&id) under key k *)
+| OPoke (t : tid) (k : nat)                  (* write the extension 900 + creation number through guard k *)
+| OPeek_ (t : tid) (k : nat)                 (* read it back through guard k *)
+| ORelease (t : tid) (k : nat)               (* drop guard k *)
+| OEnabled (t : tid) (dis : bool)            (* Collect::enabled for the next callsite: the filtered layer's verdict (dis = disabled) *)
+| OFEvent_ (t : tid) (k : pkind).            (* the event of the preceding OEvent_, as the filtered layer sees it *)
 
 Definition op_tid (o : op) : tid :=
   match o with
   | ONewSpan t _ _ _ | OClone t _ _ | ODrop t _ | OEnter t _ | OExit t _ | OExitH t _ | OCurrent t _ | OEvent_ t _
-  | OSetDef t _ | OUnsetDef t | OReadTrace t _ => t
+  | OSetDef t _ | OUnsetDef t | OReadTrace t _ | OHold_ t _ _ | OPoke t _ | OPeek_ t _ | ORelease t _ | OEnabled t _ | OFEvent_ t _ => t
   end.
 
 Definition alloc_legal (sl : slot) (a : sid) : bool :=
@@ -507,10 +561,153 @@ Definition do_readtrace (st : state) (h : hid) : state * list obs :=
     (st, [OTrace (match lookup st i s with Some _ => Some (scope st i s) | None => None end)])
   end.
 
+(* ------------------------------------------------------------------ slab guards: the operations *)
+Definition do_hold (st : state) (k : nat) (h : hid) : state * list obs :=
+  match gget k (st_held st), hget h (st_handles st) with
+  | Some _, _ => (st, [OIll 1])
+  | None, None => (st, [OIll 3])
+  | None, Some HNone => (st, [])
+  | None, Some (HSpan i s) =>
+    match lookup st i s with
+    | Some sl => (set_guards ((k, (i, s, s_seq sl)) :: st_held st) (st_limbo st) (st_notes st) st, [OHold (Some (s_seq sl))])
+    | None => (st, [OHold None])
+    end
+  end.
+
+Definition do_poke (st : state) (k : nat) : state * list obs :=
+  match gget k (st_held st) with
+  | None => (st, [OIll 3])
+  | Some (i, s, q) =>
+    (set_guards (st_held st) (st_limbo st) ((i, fst s, 900 + q) :: filter (fun n => negb (nmatch i (fst s) n)) (st_notes st)) st, [])
+  end.
+
+Definition do_peek (st : state) (k : nat) : state * list obs :=
+  match gget k (st_held st) with
+  | None => (st, [OIll 3])
+  | Some (i, s, q) => (st, [OPeek (note_at st i (fst s))])
+  end.
+
+Definition limbo_is (i : inst) (s : sid) (l : inst * sid * nat * option sid) : bool :=
+  (fst (fst (fst l)) =? i) && sid_eqb (snd (fst (fst l))) s.
+
+(** dropping a guard; the last guard of a span in limbo runs the deferred Clear for DataInner: the storage is cleared (note
+    dropped) and the parent reference is released through dispatch::get_default of THIS thread (not nested) *)
+Definition do_release (st : state) (t : tid) (k : nat) : state * list obs :=
+  match gget k (st_held st) with
+  | None => (st, [OIll 3])
+  | Some (i, s, q) =>
+    let held' := filter (fun g => negb (fst g =? k)) (st_held st) in
+    let st1 := set_guards held' (st_limbo st) (st_notes st) st in
+    if guarded st1 i s then (st1, [])
+    else match find (limbo_is i s) (st_limbo st1) with
+         | None => (st1, [])
+         | Some l =>
+           let st2 := drop_note (set_guards held' (filter (fun x => negb (limbo_is i s x)) (st_limbo st1)) (st_notes st1) st1) i s in
+           match hget (phantom q) (st_handles st2) with
+           | Some (HSpan i' p) =>
+             let st3 := set_handles (hdel (phantom q) (st_handles st2)) st2 in
+             let d := eff st3 t false in
+             let '(st4, o4) := match d with
+                               | Some j => close_stack (fuel_of st3) st3 t false j p
+                               | None => (st3, [])
+                               end in
+             (st4, ORoute i' d :: o4)
+           | _ => (st2, [])
+           end
+         end
+  end.
+
+(* ------------------------------------------------------------------ the per-subscriber-filtered layer *)
+Fixpoint vis_get (q : nat) (v : list (nat * bool)) : bool :=
+  match v with [] => true | (k, b) :: r => if k =? q then b else vis_get q r end.
+(** SpanRef::is_enabled_for(filter) *)
+Definition enabled_for (st : state) (i : inst) (s : sid) : bool :=
+  match lookup st i s with Some sl => vis_get (s_seq sl) (st_vis st) | None => false end.
+
+(** Context::lookup_current of the filtered layer: the top of the stack if its filter enabled it, else
+    lookup_current_filtered = walk the thread's span STACK (non-duplicate entries, most recent first) for the first
+    span that exists and that the filter enabled *)
+Definition flookup_current (st : state) (i : inst) (t : tid) : option sid :=
+  match filter (fun e => mine i t e && negb (e_dup e) && enabled_for st i (e_s e)) (st_entries st) with
+  | e :: _ => Some (e_s e)
+  | [] => None
+  end.
+
+(** the C06-D reading (refuted): the disabled top-of-stack span's nearest enabled ANCESTOR *)
+Fixpoint first_enabled_from (fuel : nat) (st : state) (i : inst) (next : option sid) : option sid :=
+  match fuel with
+  | O => None
+  | S f => match next with
+           | None => None
+           | Some s => match lookup st i s with
+                       | None => None
+                       | Some sl => if vis_get (s_seq sl) (st_vis st) then Some s else first_enabled_from f st i (s_parent sl)
+                       end
+           end
+  end.
+Definition flookup_parent_chain (st : state) (i : inst) (t : tid) : option sid :=
+  first_enabled_from (S (st_count st)) st i (current_span st i t).
+
+(** Scope with a filter: disabled spans are skipped, the walk continues through their parents *)
+Definition fscope (st : state) (i : inst) (s : sid) : list nat :=
+  filter (fun q => vis_get q (st_vis st)) (scope st i s).
+
+Definition do_fevent (st : state) (t : tid) (k : pkind) : state * list obs :=
+  match eff st t false with
+  | None => (st, [])
+  | Some i =>
+    let es : option sid :=
+      match k with
+      | PRoot => None
+      | PCtx => flookup_current st i t
+      | PExplicit hp => match hget hp (st_handles st) with
+                        | Some (HSpan _ p) => if enabled_for st i p then Some p else None
+                        | _ => None end
+      end in
+    let sc := match es with Some s => fscope st i s | None => [] end in
+    (st, [OFEvent i (match flookup_current st i t with Some c => seq_at st i c | None => None end)
+                  (match es with Some s => seq_at st i s | None => None end) sc (from_root sc)])
+  end.
+
+Definition do_enabled (st : state) (t : tid) (dis : bool) : state * list obs :=
+  (set_filter (if dis then t :: filter (fun x => negb (x =? t)) (st_filtering st) else filter (fun x => negb (x =? t)) (st_filtering st))
+              (st_vis st) st, []).
+
+(** Registry::new_span stores the FilterMap of the FILTERING thread-local (and the layers' on_new_span consume it) *)
+Definition note_vis (st st' : state) (t : tid) : state :=
+  let f := filter (fun x => negb (x =? t)) (st_filtering st') in
+  if st_count st <? st_count st'
+  then set_filter f ((st_count st, negb (existsb (fun x => x =? t) (st_filtering st))) :: st_vis st') st'
+  else set_filter f (st_vis st') st'.
+
+Definition new_with_guards (st : state) (t : tid) (h : hid) (k : pkind) (a : sid) : state * list obs :=
+  match eff st t false with
+  | Some i =>
+    if in_limbo st i (fst a) then (set_panicked st, [OBadAlloc])       (* a marked slot is not handed out *)
+    else
+      let '(st', ob) := do_new st t h k a in
+      let stale := match note_at st i (fst a) with
+                   | Some v => if st_count st <? st_count st' then [OStaleNote i (st_count st) v] else []
+                   | None => [] end in
+      (note_vis st st' t, ob ++ stale)
+  | None => let '(st', ob) := do_new st t h k a in (note_vis st st' t, ob)
+  end.
+
+Definition odd_hid (h : hid) : bool := Nat.odd h.
+Definition op_hids (o : op) : list hid :=
+  match o with
+  | ONewSpan _ h k _ => h :: match k with PExplicit hp => [hp] | _ => [] end
+  | OClone _ h h' => [h; h']
+  | ODrop _ h | OEnter _ h | OExitH _ h | OCurrent _ h | OReadTrace _ h | OHold_ _ _ h => [h]
+  | OEvent_ _ k | OFEvent_ _ k => match k with PExplicit hp => [hp] | _ => [] end
+  | _ => []
+  end.
+
 Definition step (st : state) (o : op) : state * list obs :=
   if st_panicked st then (st, [])
+  else if existsb odd_hid (op_hids o) then (st, [OIll 7])       (* odd handle ids are reserved for phantom references *)
   else match o with
-       | ONewSpan t h k a => do_new st t h k a
+       | ONewSpan t h k a => new_with_guards st t h k a
        | OClone _ h h' => do_clone st h h'
        | ODrop t h => do_drop st t h
        | OEnter t h => do_enter st t h
@@ -521,6 +718,12 @@ Definition step (st : state) (o : op) : state * list obs :=
        | OSetDef t d => do_setdef st t d
        | OUnsetDef t => do_unsetdef st t
        | OReadTrace _ h => do_readtrace st h
+       | OHold_ _ k h => do_hold st k h
+       | OPoke _ k => do_poke st k
+       | OPeek_ _ k => do_peek st k
+       | ORelease t k => do_release st t k
+       | OEnabled t dis => do_enabled st t dis
+       | OFEvent_ t k => do_fevent st t k
        end.
 
 Fixpoint run (st : state) (h : list op) : state * list (list obs) :=
